@@ -103,7 +103,7 @@ struct Run {
 	std::string render;
 	bool up = false;
 	// statistics for the non-trivial rules
-	int n_red_after_lower = 0, n_red_case_z = 0;
+	int n_red_after_lower = 0, n_red_case_z = 0, n_optswitch = 0;
 	int n_redeliver = 0, n_red_cache = 0, n_red_qmem = 0, n_red_pending = 0, n_red_lastfrag = 0, n_red_case = 0, n_red_otheraddr = 0;
 	int n_multi3 = 0, n_nreq_ok = 0, n_badfrag = 0, n_dup_twice = 0, n_realsoon = 0, n_tun_via_held = 0, n_long = 0;
 	int n_cache_same = 0, n_trunc = 0, n_lost_answers = 0, n_giveup = 0, n_raw = 0, n_recycled = 0, n_recycled_same_name = 0, n_recycled_data_before_n = 0, n_c2c = 0, n_red_altdomain = 0, n_qr = 0, n_hsreq = 0, n_wrap = 0, n_merge = 0, n_glue = 0, n_infra = 0, n_merge_lost_first = 0, n_excluded_k4 = 0, n_stray = 0, n_late = 0, n_excluded_k5 = 0, n_recycled_moved = 0;
@@ -871,9 +871,12 @@ inline void run_sessions(Tape &t, const Profile &P, Run &R)
 				// range: exactly one answer, BADFRAG), echo, codec test -- each is one query and gets at most one answer
 				std::string name;
 				static const int SZ[] = {0, 1, 2, 3, 50, 1200, 2047};
-				switch (t.pick({4, 1, 1})) {
+				switch (t.pick({4, 1, 1, 3})) {
 				case 0: name = refproto::name_fragprobe(p.sc.userid, SZ[t.below(7)], "aaaaaaaaaaaaaaaaaaaaaaaaaa", p.sc.domain); break;
 				case 1: name = refproto::name_z("aA-Aaahhh-Drink-mal-ein", p.sc.cmc++, p.sc.domain); break;
+				// the session switches lazy mode off or on (the client does the former after repeated SERVFAILs), typically while the server is
+				// holding one of its queries; refused once the options are locked by an N request
+				case 3: name = refproto::name_option(p.sc.userid, t.chance(2, 3) ? 'i' : 'l', p.sc.cmc++, p.sc.domain); R.n_optswitch++; break;
 				default: name = refproto::name_downenc_test("tsuvr"[t.below(5)], 1, p.sc.cmc++, p.sc.domain); break;
 				}
 				uint16_t id = p.sc.send_name(name);
